@@ -165,6 +165,17 @@ fn one_variant<V: Variant>(ctx: &mut Ctx, tier: Tier) {
         seeds.push(ctx.seed.wrapping_mul(4096) + base + 100 + k);
     }
     seeds.extend(crate::util::rejection_seeds(n));
+    // seeds on which key generation must reject its first candidate because f is not invertible mod q
+    let steer = crate::util::seeds_with_noninvertible_first_f(n, ctx.seed.wrapping_mul(4096), 400, if tier.thorough() { 8 } else { 3 });
+    let nsteer = steer.len();
+    seeds.extend(steer);
+    // seeds whose first candidate f vanishes at one particular transform slot (first, second, middle, last):
+    // an invertibility test that skips a slot accepts exactly these
+    let slots = crate::util::slot_boundary_seeds(n);
+    let nslot = slots.len();
+    for (s, _) in &slots {
+        seeds.push(*s);
+    }
     seeds.sort();
     seeds.dedup();
     let gso_every = match (n, tier.thorough()) {
@@ -192,6 +203,8 @@ fn one_variant<V: Variant>(ctx: &mut Ctx, tier: Tier) {
     part.exhaustive = true;
     part.set("seeds", json!(seeds));
     part.set("keys_with_dense_gso", json!(t.gso_keys));
+    part.set("seeds_whose_first_f_is_not_invertible", json!(nsteer));
+    part.set("seeds_whose_first_f_vanishes_at_slot_0_1_mid_last", json!(nslot));
     part.set("leaf_range_observed", json!([t.min_leaf, t.max_leaf]));
     part.set("worst_leaf_vs_gso_relative_deviation", json!(t.worst_leaf_dev));
     for (o, c) in &t.outcomes {
@@ -207,6 +220,19 @@ pub fn run(tier: Tier) {
     let mut ctx = Ctx::new("C04", tier);
     one_variant::<V512>(&mut ctx, tier);
     one_variant::<V1024>(&mut ctx, tier);
+    // leaves and key bytes must not depend on what ran before in the process (e.g. the other variant)
+    let smin = [sigma_min(512), sigma_min(1024)];
+    crate::history::differential(&mut ctx, "history_differential_keys_and_trees", &["K512", "K1024", "D512", "D1024"], 2, &|op, digest| {
+        let n: usize = op[1..].parse().unwrap_or(512);
+        let lo: f64 = digest.split("min=").nth(1).and_then(|s| s.split(' ').next()).and_then(|s| s.parse().ok()).unwrap_or(f64::NAN);
+        let hi: f64 = digest.split("max=").nth(1).and_then(|s| s.split(' ').next()).and_then(|s| s.parse().ok()).unwrap_or(f64::NAN);
+        let sm = if n == 512 { smin[0] } else { smin[1] };
+        if !(lo >= sm && hi <= SIGMA_MAX) {
+            Some(format!("tree leaves span [{}, {}], allowed [{}, {}]", lo, hi, sm, SIGMA_MAX))
+        } else {
+            None
+        }
+    });
     ctx.sample(json!({"variant":512,"seed":"LE64(0)||0^24","checks":["f*G-g*F=q","f invertible","h*f=g","leaves in range","leaves = sigma/GSO"]}));
     ctx.assume("seeds outside the enumerated window are not covered; ntru_gen is a rejection loop whose acceptance tests are the property's preconditions, the window contains seeds on which each rejection branch is taken");
     ctx.assume("dense Gram-Schmidt in f64 (modified Gram-Schmidt); tolerance 1e-9 relative, measured agreement ~1e-14");
@@ -214,6 +240,9 @@ pub fn run(tier: Tier) {
 }
 
 pub fn replay(case: &Value) -> Result<Option<String>, String> {
+    if case.get("kind").and_then(|k| k.as_str()) == Some("history") {
+        return crate::history::replay(case);
+    }
     let variant = case.get("variant").and_then(|x| x.as_u64()).ok_or("variant")?;
     let seed = case.get("seed").and_then(|x| x.as_u64()).ok_or("seed")?;
     let g = case.get("gso").and_then(|x| x.as_bool()).unwrap_or(true);
